@@ -67,6 +67,12 @@ pub open spec fn trim_start_spec(s: Seq<char>, p: Seq<char>) -> Seq<char>
     if p.len() > 0 && is_prefix_of(p, s) { trim_start_spec(s.subrange(p.len() as int, s.len() as int), p) } else { s }
 }
 
+// the String with a given character sequence (unique by axiom_string_view_injective)
+pub uninterp spec fn string_of(s: Seq<char>) -> String;
+
+pub broadcast axiom fn axiom_string_of(s: Seq<char>)
+    ensures #[trigger] string_of(s)@ == s;
+
 pub trait VxStr {
     fn vx_strip_prefix<'a>(&'a self, p: &str) -> (r: Option<&'a str>);
     fn vx_strip_suffix<'a>(&'a self, p: &str) -> (r: Option<&'a str>);
@@ -151,7 +157,7 @@ impl VxStr for str {
     { self.parse::<u64>().ok() }
 
     #[verifier::external_body]
-    fn vx_to_string(&self) -> (r: String) ensures r@ == self@
+    fn vx_to_string(&self) -> (r: String) ensures r@ == self@, r == string_of(self@)
     { self.to_string() }
 }
 
@@ -162,3 +168,9 @@ impl VxDec for u32 { open spec fn dec_value(&self) -> nat { *self as nat } }
 impl VxDec for u16 { open spec fn dec_value(&self) -> nat { *self as nat } }
 impl VxDec for u8 { open spec fn dec_value(&self) -> nat { *self as nat } }
 impl VxDec for usize { open spec fn dec_value(&self) -> nat { *self as nat } }
+
+// A Rust String is determined by its characters (capacity is not observable through ==, Hash or Eq).
+pub broadcast axiom fn axiom_string_view_injective(a: String, b: String)
+    requires #[trigger] a@ == #[trigger] b@
+    ensures a == b;
+
